@@ -43,6 +43,15 @@ def generate(rng, tier):
     t = gen_tree.gen_crate(rng, base="c", max_files=rng.choice([1, 1, 2, 4]), feats={"modrs", "path"}, body=body)
     files = dict(t.files)
     srcs = list(t.reach)
+    roots = [t.root]
+    # sometimes a second input on the same command line (an emitter's state must survive between inputs)
+    nextra = rng.choice([0, 0, 0, 1, 1, 2])
+    for j in range(nextra):
+        t2 = gen_tree.gen_crate(rng, base="e%d" % j, root_name="x%d.rs" % j, max_files=rng.choice([1, 1, 2]), feats={"modrs"},
+                                suffix="x%d" % j, body=body)
+        files.update(t2.files)
+        srcs += list(t2.reach)
+        roots.append(t2.root)
     variant = {}
     for f in srcs:
         k = rng.below(100)
@@ -60,7 +69,7 @@ def generate(rng, tier):
     if cfg:
         files["c/" + rng.choice(["rustfmt.toml", ".rustfmt.toml"])] = "\n".join(cfg) + "\n"
     return {
-        "world": {"files": files}, "tree": t.to_json(), "sources": srcs, "variant": variant, "preformatted": pre,
+        "world": {"files": files}, "tree": t.to_json(), "sources": srcs, "variant": variant, "preformatted": pre, "roots": roots,
         "hashseed": rng.below(1 << 32), "stream_faults": rng.below(4), "abs": rng.chance(20),
     }
 
@@ -187,7 +196,8 @@ def execute(case):
         world = copy.deepcopy(case["world"])
         # step 0: obtain formatted text for the "already formatted" substitution
         sc.fresh_world(world)
-        r0 = core.run_inv(sc, _inv(case, [], root_rel))
+        roots = case.get("roots") or [root_rel]
+        r0 = core.run_inv(sc, {"argv": ["--color", "never"] + roots, "hashseed": case["hashseed"]})
         v.account(r0, nontrivial=False)
         if r0.exit != 0 or r0.signal:
             v.probe("input-rejected")
@@ -221,7 +231,7 @@ def execute(case):
                     v.add("C06:readonly-mode-mutates|%s" % tag, "%s argv=%s: %s %s" % (tag, argv, [e.raw for e in muts][:3], sorted(d)[:3]))
             return r, d
 
-        rootarg = ("$ROOT/" + root_rel) if case["abs"] else root_rel
+        rootargs = [("$ROOT/" + r) if case["abs"] else r for r in roots]
         sf = case["stream_faults"]
         out_plan = {0: None, 1: ["* write 0 @1 short 1,5,17,3"], 2: ["* write 2 @1 eintr 2"], 3: ["* write 0 @1 short 64,1"]}[sf]
         in_plan = {0: None, 1: ["* read 0 @0 short 7,1,30"], 2: ["* read 1 @0 eintr 1"], 3: ["* read 0 @0 short 1"]}[sf]
@@ -229,7 +239,7 @@ def execute(case):
             v.planned("short" if sf != 2 else "eintr")
 
         # ---- files mode defines W
-        rf, df = run("files", [rootarg], readonly=False)
+        rf, df = run("files", rootargs, readonly=False)
         if rf.exit != 0:
             v.probe("files-mode-error")
             return v
@@ -252,7 +262,7 @@ def execute(case):
         nontrivial = bool(W)
 
         # ---- stdout: the text T
-        rs, _ = run("stdout", ["--emit", "stdout", rootarg], plan=out_plan)
+        rs, _ = run("stdout", ["--emit", "stdout"]+ rootargs, plan=out_plan)
         T = parse_stdout_sections(rs.stdout, cwd_abs, sc.root, known)
         # a file that opts out as a whole (inner skip attribute, ignore, @generated) has no section and is
         # never rewritten; every file that files mode rewrites must have one
@@ -266,22 +276,22 @@ def execute(case):
         if sf and any("SHORT" in e.raw or e.fault for e in rs.events):
             v.fired("short" if sf != 2 else "eintr")
         if single:
-            rq, _ = run("stdout-q", ["--emit", "stdout", "-q", rootarg])
+            rq, _ = run("stdout-q", ["--emit", "stdout", "-q"]+ rootargs)
             if srcs[0] in T and rq.stdout != T[srcs[0]]:
                 v.add("C06:stdout-quiet-text", "stdout -q bytes differ from stdout section")
         # ---- files -l
-        rl, _ = run("files-l", ["-l", rootarg], readonly=False)
+        rl, _ = run("files-l", ["-l"]+ rootargs, readonly=False)
         listed = _names(rl.stdout, cwd_abs, sc.root)
         if listed != sorted(W) and rl.exit == 0:
             v.add("C06:files-l-names", "-l printed %s, files rewritten %s" % (listed, sorted(W)))
         # ---- backup
-        rb, dbk = run("backup", ["--backup", rootarg], readonly=False)
+        rb, dbk = run("backup", ["--backup"]+ rootargs, readonly=False)
         for f in srcs:
             cur = core.read_rel(sc.root, f)
             if cur != (written[f] if f in W else orig[f]):
                 v.add("C06:backup-vs-files-text", "%s after --backup differs from plain files mode" % f)
         # ---- check
-        rc, _ = run("check", ["--check", rootarg], plan=out_plan)
+        rc, _ = run("check", ["--check"]+ rootargs, plan=out_plan)
         if not core.text_of(rc.stderr).strip():
             want = 1 if W else 0
             if rc.exit != want:
@@ -298,20 +308,20 @@ def execute(case):
                 v.add("C06:check-silent-on-rewritten-file", "%s would be rewritten but --check printed nothing for it" % f)
             if f not in W and (f in dchunks or f in nlonly):
                 v.add("C06:check-reports-unchanged-file", "%s is left alone by files mode but reported by --check" % f)
-        rcl, _ = run("check-l", ["--check", "-l", rootarg])
+        rcl, _ = run("check-l", ["--check", "-l"]+ rootargs)
         if _names(rcl.stdout, cwd_abs, sc.root) != sorted(W) and not core.text_of(rcl.stderr).strip():
             v.add("C06:check-l-names", "--check -l printed %s, files rewritten %s" % (_names(rcl.stdout, cwd_abs, sc.root), sorted(W)))
         if not core.text_of(rcl.stderr).strip() and rcl.exit != (1 if W else 0):
             v.add("C06:check-exit-vs-rewrite|-l", "--check -l exit %s, rewritten %s" % (rcl.status(), sorted(W)))
         # ---- json
-        rj, _ = run("json", ["--emit", "json", rootarg], plan=out_plan)
+        rj, _ = run("json", ["--emit", "json"]+ rootargs, plan=out_plan)
         _judge_json(v, rj.stdout, "json", srcs, orig, T, cwd_abs, sc.root)
         # ---- checkstyle
-        rx, _ = run("checkstyle", ["--emit", "checkstyle", rootarg])
+        rx, _ = run("checkstyle", ["--emit", "checkstyle"]+ rootargs)
         _judge_checkstyle(v, rx.stdout, "checkstyle", srcs, T, cwd_abs, sc.root)
         # ---- modified lines (single file: one unnamed report)
         if single:
-            rm, _ = run("modified", ["--config", "emit_mode=ModifiedLines", rootarg])
+            rm, _ = run("modified", ["--config", "emit_mode=ModifiedLines"]+ rootargs)
             ch = parse_modified_lines(core.text_of(rm.stdout))
             f = srcs[0]
             if ch is None:
@@ -319,7 +329,7 @@ def execute(case):
             elif f in T and apply_chunks(lines_of(_strip_bom(orig[f])), ch) != lines_of(T[f]):
                 v.add("C06:modified-lines-vs-text", "%s: modified-lines report applied to the original does not give the formatted lines" % f)
         # ---- coverage: read-only oracle only
-        run("coverage", ["--emit", "coverage", rootarg])
+        run("coverage", ["--emit", "coverage"]+ rootargs)
         # ---- stdin lane
         if single:
             f = srcs[0]
@@ -339,11 +349,11 @@ def execute(case):
                 v.add("C06:stdin-diff-vs-text", "%s: stdin --check diff does not reconstruct the formatted lines" % f)
         # ---- histories
         # check -> format -> check
-        h1, _ = run("h:check", ["--check", rootarg])
-        h2, _ = run("h:format", [rootarg], fresh=False, readonly=False)
-        h3, _ = run("h:check2", ["--check", rootarg], fresh=False)
+        h1, _ = run("h:check", ["--check"]+ rootargs)
+        h2, _ = run("h:format", rootargs, fresh=False, readonly=False)
+        h3, _ = run("h:check2", ["--check"]+ rootargs, fresh=False)
         # format -> format : the relation "check after format is 0 iff second format writes nothing"
-        h4, d4 = run("h:format2", [rootarg], fresh=False, readonly=False)
+        h4, d4 = run("h:format2", rootargs, fresh=False, readonly=False)
         second_writes = bool(h4.muts())
         if not core.text_of(h3.stderr).strip() and not core.text_of(h4.stderr).strip():
             if (h3.exit == 0) != (not second_writes):
